@@ -69,6 +69,51 @@ def run(ctx):
 
     W = {norm(f.path).split("::")[-1]: f for f in wmo.fn_list if "writer::WmoWriter::write_" in f.path and f.kind != "Closure" and f.hir}
 
+    # string tables are addressed by *byte* offset: every running offset / size over names advances by the byte length
+    R_bytes = ctx.rule("C15.string-table-offsets-count-bytes", "in the writer every accumulation over a name (`x += name.<len> + 1`) uses the byte length `.len()`, the unit in which the names are emitted", floor=4)
+    for f in wmo.fn_list:
+        if f.kind == "Closure" or not f.hir or "writer::WmoWriter::" not in f.path:
+            continue
+        for x in hirq.walk(f.hir["body"]):
+            if x.get("k") != "assignop" or not x["op"].startswith("+"):
+                continue
+            r_ = hirq.render(x["r"])
+            if not re.search(r"name|filename|path|string|texture", r_) or not re.search(r"len\(\)|count\(\)|chars\(\)|width", r_):
+                continue
+            ctx.saw_fn(f)
+            if re.search(r"chars\(\)|char_indices\(\)|graphemes|encode_utf16", r_):
+                ctx.bad(R_bytes, "%s|char-count" % norm(f.path).split("::")[-1], "%s:%d" % (f.file, x["ln"]), "`%s` advances by a character count" % hirq.render(x)[:70],
+                        "the names are written as UTF-8 bytes: after the first non-ASCII name every later offset points too early and the names parse back as fragments of their neighbours")
+            else:
+                ctx.ok(R_bytes, {"fn": norm(f.path), "advance": hirq.render(x)[:70]})
+
+    # extremum accumulators start at the identity of their fold (running max at the lowest value, running min at the highest)
+    R_ext = ctx.rule("C15.extremum-accumulators-start-at-identity", "a local folded with `.max(..)` starts at f32::MIN / NEG_INFINITY, one folded with `.min(..)` at f32::MAX / INFINITY (or at an element)", floor=6)
+    for f in wmo.fn_list:
+        if f.kind == "Closure" or not f.hir or "::tests::" in f.path:
+            continue
+        lets = {l["pat"]["name"]: l for l in hirq.find(f.hir["body"], "let") if l["pat"].get("k") == "bind" and l.get("init") is not None}
+        for a in hirq.find(f.hir["body"], "assign"):
+            l = hirq.strip(a["l"])
+            r_ = hirq.strip(a["r"])
+            if l.get("k") != "path" or "local" not in l["res"] or r_.get("k") != "mcall" or r_["m"] not in ("max", "min"):
+                continue
+            nm = l["res"]["local"]
+            if hirq.render(hirq.strip(r_["recv"])) != nm or nm not in lets:
+                continue
+            ty = wmo.ty(lets[nm]["init"].get("t")) or ""
+            if ty not in ("f32", "f64"):
+                continue
+            init = hirq.render(lets[nm]["init"])
+            ctx.saw_fn(f)
+            want = r"(MIN|NEG_INFINITY|-.*MAX|-.*INFINITY)$" if r_["m"] == "max" else r"(MAX|INFINITY)$"
+            elem = not re.search(r"MIN|MAX|INFINITY|EPSILON|^-?\d", init)
+            if (re.search(want, init) and not re.search(r"MIN_POSITIVE|EPSILON", init)) or elem:
+                ctx.ok(R_ext, {"fn": norm(f.path), "acc": nm, "fold": r_["m"], "init": init})
+            else:
+                ctx.bad(R_ext, "%s|%s|init" % (norm(f.path).split("::")[-1], nm), "%s:%d" % (f.file, lets[nm]["ln"]), "`%s` is folded with .%s() but starts at `%s`" % (nm, r_["m"], init),
+                        "values on the wrong side of the start value can never win: e.g. a bounding box whose groups all lie below the origin gets a maximum of ~0 instead of its real (negative) extent, and the header written from it differs from the source")
+
     # a list's chunk is written unconditionally, or under a condition on that same list / the target version — never
     # under a condition on a *different* list (header counts are lengths of every list, so a skipped chunk breaks them)
     R_guard = ctx.rule("C15.chunk-guard-mentions-only-own-list", "in write_root / write_group each `self.write_X(.., &obj.F, ..)` is guarded at most by conditions on obj.F itself or on the version", floor=10)
